@@ -105,6 +105,53 @@ theorem mem_requeue (rest ds : List Nat) (x : Nat) :
           | head => exact Or.inl (Or.inr rfl)
           | tail _ hm => exact Or.inr hm
 
+/-- invariant of the loop: every block (of interest, `P`) that is not queued satisfies its equation -/
+def InvP (P : Nat → Prop) (F : List (Nat × V) → Nat → V) (dflt : V) (cur : List (Nat × V)) (wl : List Nat) : Prop :=
+  ∀ b, P b → b ∉ wl → getMap cur b dflt = F cur b
+
+/-- when the worklist loop stops, its result solves the equations of the blocks in `P` — provided the new value of a block
+    depends only on the blocks in `inputs b`, and changing a block re-queues every block of `P` that reads it. -/
+theorem worklistRun_solutionP (P : Nat → Prop) (F : List (Nat × V) → Nat → V) (deps inputs : Nat → List Nat) (dflt : V)
+    (hloc : ∀ cur cur' b, (∀ i ∈ inputs b, getMap cur i dflt = getMap cur' i dflt) → F cur b = F cur' b)
+    (hdeps : ∀ b i, P b → i ∈ inputs b → b ∈ deps i) :
+    ∀ (fuel : Nat) (cur : List (Nat × V)) (wl : List Nat), InvP P F dflt cur wl →
+      ∀ r, worklistRun F deps dflt fuel cur wl = some r → ∀ b, P b → getMap r b dflt = F r b := by
+  intro fuel
+  induction fuel with
+  | zero => intro cur wl _ r hr; simp [worklistRun] at hr
+  | succ n ih =>
+    intro cur wl hinv r hr
+    cases wl with
+    | nil =>
+      simp only [worklistRun, Option.some.injEq] at hr
+      subst hr; intro b hb; exact hinv b hb (by simp)
+    | cons b rest =>
+      simp only [worklistRun] at hr
+      split at hr
+      · rename_i heq
+        refine ih cur rest ?_ r hr
+        intro x hpx hx
+        by_cases hxb : x = b
+        · subst hxb; exact heq.symm
+        · exact hinv x hpx (by simp [hxb, hx])
+      · rename_i hne
+        refine ih _ _ ?_ r hr
+        intro x hpx hx
+        rw [mem_requeue] at hx
+        have hx1 : x ∉ rest := fun h => hx (Or.inl h)
+        have hx2 : x ∉ deps b := fun h => hx (Or.inr h)
+        have hnb : b ∉ inputs x := fun hm => hx2 (hdeps x b hpx hm)
+        have hlocx : F (updMap cur b (F cur b)) x = F cur x := by
+          apply hloc
+          intro i hi
+          have : i ≠ b := fun e => hnb (e ▸ hi)
+          rw [getMap_updMap]; simp [this]
+        rw [getMap_updMap, hlocx]
+        by_cases hxb : x = b
+        · simp [hxb]
+        · simp only [hxb, if_false]
+          exact hinv x hpx (by simp [hxb, hx1])
+
 /-- invariant of the loop: every block that is not queued satisfies its equation -/
 def Inv (F : List (Nat × V) → Nat → V) (dflt : V) (cur : List (Nat × V)) (wl : List Nat) : Prop :=
   ∀ b, b ∉ wl → getMap cur b dflt = F cur b
